@@ -3,8 +3,11 @@
 package zz_verif
 
 import (
+	"sort"
+
 	ipfslog "berty.tech/go-ipfs-log"
 	"berty.tech/go-ipfs-log/accesscontroller"
+	"berty.tech/go-ipfs-log/enc"
 	"berty.tech/go-ipfs-log/entry"
 	idp "berty.tech/go-ipfs-log/identityprovider"
 	"berty.tech/go-ipfs-log/iface"
@@ -20,10 +23,10 @@ import (
 // and with SYMCLOCK the initial clock values, are SMT variables.
 
 const (
-	opAppend = 0
-	opJoin   = 1
-	opReload = 2
-	opSetID  = 3
+	opAppend      = 0
+	opJoin        = 1
+	opReload      = 2
+	opSetID       = 3
 	opJoinPartial = 4
 	opJoinOlder   = 5
 	opJoinFresh   = 6
@@ -36,6 +39,7 @@ type histCfg struct {
 	symClock bool
 	reload   bool // step kind "reload": rebuild the replica from its entries with NewLog (what the loaders do)
 	deny     bool // replica 0 refuses entries signed by the last writer
+	mixIO    bool // with realIO: replicas use different codec configurations
 	fork     bool // step kind "fork": replica dst is replaced by a new log built from replica src's GetEntries() (both stay live)
 	denyP0   bool // only replica 0 refuses the denyP-th payload (the others create and hold that entry)
 	closing  bool // after the K steps every replica merges a fresh single-entry log of its own writer (one more observed step each)
@@ -51,7 +55,7 @@ type histCfg struct {
 
 func histParams() histCfg {
 	return histCfg{R: vx.Param("R", 2), K: vx.Param("K", 3), W: vx.Param("W", 2), sort: vx.Param("SORT", sortHash),
-		symClock: vx.Param("SYMCLOCK", 0) == 1, reload: vx.Param("RELOAD", 0) == 1, deny: vx.Param("DENY", 0) == 1, pcN: vx.Param("PCN", 1), emptyAt: vx.Param("EMPTYAT", -1), realIO: vx.Param("REALIO", 0) == 1, setID: vx.Param("SETID", 0) == 1, partial: vx.Param("PARTIAL", 0) >= 1, older: vx.Param("PARTIAL", 0) == 2, denyP: vx.Param("DENYP", -1), pcAlt: vx.Param("PCALT", 0), denyP0: vx.Param("DENYP0", 0) == 1, closing: vx.Param("CLOSE", 0) == 1, fork: vx.Param("FORKOP", 0) == 1}
+		symClock: vx.Param("SYMCLOCK", 0) == 1, reload: vx.Param("RELOAD", 0) == 1, deny: vx.Param("DENY", 0) == 1, pcN: vx.Param("PCN", 1), emptyAt: vx.Param("EMPTYAT", -1), realIO: vx.Param("REALIO", 0) == 1, setID: vx.Param("SETID", 0) == 1, partial: vx.Param("PARTIAL", 0) >= 1, older: vx.Param("PARTIAL", 0) == 2, denyP: vx.Param("DENYP", -1), pcAlt: vx.Param("PCALT", 0), denyP0: vx.Param("DENYP0", 0) == 1, closing: vx.Param("CLOSE", 0) == 1, fork: vx.Param("FORKOP", 0) == 1, mixIO: vx.Param("MIXIO", 0) == 1}
 }
 
 var pcTable = []int{0, 2, 4, 3, 8, -1, 16, 1}
@@ -81,6 +85,22 @@ func (h *hist) writerOf(r int) *idp.Identity {
 }
 
 // io returns the codec the history's logs use.
+// ioFor: the codec of replica r (MIXIO: odd replicas use the link-encrypting codec, even ones the default).
+func (h *hist) ioFor(r int) iface.IO {
+	if h.cfg.realIO && h.cfg.mixIO && r%2 == 1 {
+		c, err := cbor.IO(&entry.Entry{}, &entry.LamportClock{})
+		if err != nil {
+			panic(err)
+		}
+		k, err := enc.NewSecretbox(linkKeyBytes(5))
+		if err != nil {
+			panic(err)
+		}
+		return c.ApplyOptions(&cbor.Options{LinkKey: k})
+	}
+	return h.io()
+}
+
 func (h *hist) io() iface.IO {
 	if h.cfg.realIO {
 		c, err := cbor.IO(&entry.Entry{}, &entry.LamportClock{})
@@ -101,7 +121,7 @@ func newHist(cfg histCfg) *hist {
 		h.cur = append(h.cur, r%cfg.W)
 	}
 	for r := 0; r < cfg.R; r++ {
-		o := &ipfslog.LogOptions{SortFn: h.sortFn(), IO: h.io()}
+		o := &ipfslog.LogOptions{SortFn: h.sortFn(), IO: h.ioFor(r)}
 		if cfg.deny && r == 0 && cfg.W > 1 {
 			o.AccessController = &denyWriter{id: h.ids[cfg.W-1].ID}
 		}
@@ -457,10 +477,11 @@ func keys(m map[string]bool) []string {
 
 type entrySnap struct {
 	hash, logID, payload, key, sig, clockID string
-	next, refs                             []string
-	v                                      uint64
-	time                                   int
-	c                                      cid.Cid
+	next, refs                              []string
+	v                                       uint64
+	time                                    int
+	c                                       cid.Cid
+	extra                                   []string // additional data, sorted "key=value"
 }
 
 func snapEntry(e iface.IPFSLogEntry) entrySnap {
@@ -472,6 +493,10 @@ func snapEntry(e iface.IPFSLogEntry) entrySnap {
 	for _, r := range e.GetRefs() {
 		s.refs = append(s.refs, r.String())
 	}
+	for k, v := range e.GetAdditionalData() {
+		s.extra = append(s.extra, k+"="+v)
+	}
+	sort.Strings(s.extra)
 	return s
 }
 
@@ -490,7 +515,7 @@ func sameStrs(a, b []string) bool {
 func (s entrySnap) equalTo(e iface.IPFSLogEntry) bool {
 	t := snapEntry(e)
 	return vx.And(s.hash == t.hash && s.logID == t.logID && s.payload == t.payload && s.key == t.key && s.sig == t.sig && s.clockID == t.clockID && s.v == t.v &&
-		sameStrs(s.next, t.next) && sameStrs(s.refs, t.refs), s.time == t.time)
+		sameStrs(s.next, t.next) && sameStrs(s.refs, t.refs) && sameStrs(s.extra, t.extra), s.time == t.time)
 }
 
 type logSnap struct {
